@@ -1,1 +1,126 @@
+//! Shared machinery of the flussab model-checking harness.
+//!
+//! * `choice`  – choice points + stateless, deviation-bounded DFS over them (engine E-choice)
+//! * `source`  – scripted `Read` implementation whose answers are choice points
+//! * `bfs`     – explicit-state breadth-first search over operation histories (engine E-bfs)
+//! * `par`     – deterministic parallel map over independent sub-spaces
+//! * `report`  – violations, evidence counters, JSON output
+//! * `subject` – a parser run as an observable (items + final outcome), panic capture
+//! * `bigdec`  – decimal strings as arbitrary precision reference numbers
+pub mod bfs;
+pub mod bigdec;
+pub mod choice;
+pub mod par;
+pub mod report;
+pub mod source;
+pub mod subject;
+pub mod generic;
 
+pub use serde_json;
+pub use serde_json::{json, Value};
+
+/// Hex encoding used in replay files and samples.
+pub fn hex(bytes: &[u8]) -> String {
+    let mut s = String::with_capacity(bytes.len() * 2);
+    for b in bytes {
+        s.push_str(&format!("{:02x}", b));
+    }
+    s
+}
+
+pub fn unhex(s: &str) -> Vec<u8> {
+    let b = s.as_bytes();
+    (0..b.len() / 2)
+        .map(|i| u8::from_str_radix(std::str::from_utf8(&b[2 * i..2 * i + 2]).unwrap(), 16).unwrap())
+        .collect()
+}
+
+/// Printable rendering of a byte string for samples (lossy, escapes control characters).
+pub fn show(bytes: &[u8]) -> String {
+    let mut s = String::new();
+    for &b in bytes {
+        match b {
+            b'\n' => s.push_str("\\n"),
+            b'\r' => s.push_str("\\r"),
+            b'\t' => s.push_str("\\t"),
+            b'\\' => s.push_str("\\\\"),
+            0x20..=0x7e => s.push(b as char),
+            _ => s.push_str(&format!("\\x{:02x}", b)),
+        }
+    }
+    s
+}
+
+/// FNV-1a, used for replay file names and cheap state hashing.
+pub fn fnv(bytes: &[u8]) -> u64 {
+    let mut h: u64 = 0xcbf29ce484222325;
+    for &b in bytes {
+        h ^= b as u64;
+        h = h.wrapping_mul(0x100000001b3);
+    }
+    h
+}
+
+/// Tier of a run.
+#[derive(Clone, Copy, PartialEq, Eq, Debug)]
+pub enum Tier {
+    Quick,
+    Thorough,
+}
+
+impl Tier {
+    pub fn parse(s: &str) -> Tier {
+        match s {
+            "quick" => Tier::Quick,
+            "thorough" => Tier::Thorough,
+            _ => panic!("unknown tier {s}"),
+        }
+    }
+    pub fn name(self) -> &'static str {
+        match self {
+            Tier::Quick => "quick",
+            Tier::Thorough => "thorough",
+        }
+    }
+    pub fn pick<T>(self, quick: T, thorough: T) -> T {
+        match self {
+            Tier::Quick => quick,
+            Tier::Thorough => thorough,
+        }
+    }
+}
+
+/// Wall clock budget; engines poll it between sub-spaces.
+#[derive(Clone, Copy)]
+pub struct Budget {
+    pub start: std::time::Instant,
+    pub limit: std::time::Duration,
+}
+
+impl Budget {
+    pub fn new(secs: f64) -> Self {
+        Budget { start: std::time::Instant::now(), limit: std::time::Duration::from_secs_f64(secs) }
+    }
+    pub fn expired(&self) -> bool {
+        self.start.elapsed() >= self.limit
+    }
+    pub fn elapsed(&self) -> f64 {
+        self.start.elapsed().as_secs_f64()
+    }
+}
+
+/// Which build profile this binary was compiled with (checked = debug assertions on).
+pub fn build_profile() -> &'static str {
+    if cfg!(debug_assertions) {
+        "checked"
+    } else {
+        "wrapping"
+    }
+}
+
+pub fn threads() -> usize {
+    std::env::var("MC_THREADS")
+        .ok()
+        .and_then(|s| s.parse().ok())
+        .unwrap_or_else(|| std::thread::available_parallelism().map(|n| n.get()).unwrap_or(4))
+}
